@@ -22,9 +22,11 @@ NLeaf == Len(RetLeaves)      \* leaf 8 is `-1` (a unary expression); leaf 9 is l
 Ret(v) == [k |-> "ret", v |-> v, b |-> <<>>]
 Comp(k, bodies) == [k |-> k, v |-> 0, b |-> bodies]
 
+ScopeKinds == {"nesteddef", "nestedclass", "lambda"}
 RECURSIVE StmtLeaves(_)
 StmtLeaves(s) ==
   IF s.k = "ret" THEN { s.v }
+  ELSE IF s.k \in ScopeKinds THEN {}      \* the returns of a nested function, of a method of a local class and of a lambda are not the function's
   ELSE UNION { UNION { StmtLeaves(s.b[j][m]) : m \in 1..Len(s.b[j]) } : j \in 1..Len(s.b) }
 BodyLeaves(body) == UNION { StmtLeaves(body[m]) : m \in 1..Len(body) }
 ReturnValues(body) == { RetLeaves[v] : v \in BodyLeaves(body) }
@@ -52,6 +54,9 @@ Conds(L) == { << Comp("cond", << <<Ret(a)>>, <<Ret(b)>> >>) >> : a \in L, b \in 
             \cup { << Comp("cond3", << <<Ret(a)>>, <<Ret(b)>>, <<Ret(c)>> >>) >> : a \in L, b \in L, c \in L \cap {1, 3, 5} }   \* x if c else (y if d else z)
             \cup { << Comp("cond3l", << <<Ret(a)>>, <<Ret(b)>>, <<Ret(c)>> >>) >> : a \in L \cap {1, 3, 5}, b \in L, c \in L }  \* (x if c else y) if d else z
             \cup { << Comp("cond4", << <<Ret(a)>>, <<Ret(b)>>, <<Ret(c)>>, <<Ret(e)>> >>) >> : a \in L \cap {1, 5}, b \in L \cap {2, 3}, c \in L \cap {4, 5, 1}, e \in L \cap {3, 2, 6} }   \* both branches are conditional expressions
+(* a scope of its own inside the body (nested def, local class with a method, lambda), alone or followed by a return of the function itself *)
+Scopes(L, L2) == { << Comp(k, << <<Ret(a)>> >>) >> : k \in ScopeKinds, a \in L }
+                 \cup { << Comp(k, << <<Ret(a)>> >>), Ret(v) >> : k \in ScopeKinds, a \in L, v \in L2 }
 Elifs(L) == { << Comp("ifelif", << <<Ret(a)>>, <<Ret(b)>>, <<Ret(c)>> >>) >> : a \in L, b \in L, c \in L }
 
 Bodies(tier) ==
@@ -60,7 +65,7 @@ Bodies(tier) ==
       tiny == {1, 5, 6}
       exprs == all \ {10, 11}       \* a bare return has no expression to put into a conditional expression
   IN B0(all) \cup Compounds(B0(all \ {11}), small \cup {10}) \cup Conds(exprs) \cup Elifs(small)
-     \cup ElseClauses(small)
+     \cup ElseClauses(small) \cup Scopes({1, 3, 6}, {2, 5, 7})
      \cup { <<>> }                                                     \* no return statement at all
      \cup Compounds(Compounds(B0(tiny), {2}) \cup Conds(tiny), {7})    \* depth 2
      \cup (IF tier = "quick" THEN {} ELSE Compounds(Compounds(B0(tiny), small), tiny) \cup Elifs(exprs))
